@@ -1,9 +1,548 @@
-(* MathProofs.v — proofs about MathModel.v (src/SquidMath.h). *)
+(* MathProofs.v — proofs about MathModel.v (src/SquidMath.h).
+
+   Structure: (1) the type model equals the tables generated from the compiler;
+   (2) finite facts about the 10 types / 100 type pairs, each a boolean checked by
+   vm_compute over the complete enumeration and lifted to forall; (3) generic range
+   lemmas for conversions, comparisons and +/- that use only those facts (no case
+   split on types, so the number of integer types is not baked into the arguments);
+   (4) Less; (5) the two IncreaseSumInternal overloads; (6) IncreaseSum, NaturalSum
+   for argument lists of any length, SetToNaturalSumOrMax, NaturalCast. *)
 Require Import SquidV.Bytes SquidV.MathModel SquidV.gen.IntTypes_gen.
+Require Import ZifyBool Lia.
 Local Open Scope Z_scope.
 
-(* The hand-written type model agrees with what the compiler / SquidMath.h say today. *)
+(* ------------------------------------------------------------------ *)
+(* the specification side: unbounded integers, nothing about types except the result maximum *)
+
+Definition all_nonneg (args : list (ity * Z)) : bool := forallb (fun p => 0 <=? snd p) args.
+Definition zsum (args : list (ity * Z)) : Z := fold_right (fun p acc => snd p + acc) 0 args.
+(* the exact sum if all arguments are non-negative and it fits the result type, else nothing *)
+Definition exact_sum (S : ity) (args : list (ity * Z)) : option Z :=
+  if all_nonneg args && (zsum args <=? tmax S) then Some (zsum args) else None.
+(* every argument value lies in the range of the type it is passed as *)
+Definition args_in_range (args : list (ity * Z)) : Prop :=
+  Forall (fun p => in_range (fst p) (snd p)) args.
+
+(* ------------------------------------------------------------------ *)
+(* 1. The hand-written type model agrees with what the compiler / SquidMath.h say today. *)
 Lemma type_model_matches_compiler :
   model_types = gen_types /\ model_promote = gen_promote /\ model_common = gen_common /\
   model_sum_type = gen_sum_type /\ model_all_unsigned = gen_all_unsigned.
 Proof. vm_compute. repeat split; reflexivity. Qed.
+
+(* ------------------------------------------------------------------ *)
+(* 2. finite facts *)
+Lemma all_ity_complete : forall t, In t all_ity.
+Proof. destruct t; cbn; tauto. Qed.
+
+Lemma forall_ity (P : ity -> bool) : forallb P all_ity = true -> forall t, P t = true.
+Proof. intros H t. rewrite forallb_forall in H. apply H, all_ity_complete. Qed.
+
+Lemma forall_ity2 (P : ity -> ity -> bool) :
+  forallb (fun a => forallb (P a) all_ity) all_ity = true -> forall a b, P a b = true.
+Proof. intros H a b. apply (forall_ity (P a)). apply (forall_ity (fun a => forallb (P a) all_ity) H a). Qed.
+
+Lemma ity_eqb_eq a b : ity_eqb a b = true -> a = b.
+Proof. destruct a, b; try reflexivity; intros H; discriminate H. Qed.
+
+Lemma half_pos t : 0 < half t.
+Proof. destruct t; vm_compute; reflexivity. Qed.
+
+(* range of a is contained in range of t *)
+Definition range_sub (a t : ity) : bool := (tmin t <=? tmin a) && (tmax a <=? tmax t).
+
+Definition uac_fact (ta tb : ity) : bool :=
+  let t := uac ta tb in
+  (if is_signed t then range_sub ta t && range_sub tb t
+   else (tmax ta <=? tmax t) && (tmax tb <=? tmax t))
+  && ity_eqb (uac t t) t
+  && (negb (is_signed ta && is_signed tb) || is_signed t)
+  && (negb (ity_eqb (promote ta) ta && ity_eqb (promote tb) tb)
+      || is_signed ta || is_signed tb || negb (is_signed t)).
+Lemma uac_fact_all : forall ta tb, uac_fact ta tb = true.
+Proof. apply forall_ity2. vm_compute. reflexivity. Qed.
+
+Definition common_fact (ta tb : ity) : bool :=
+  (* common_type is the operand type itself or the usual-arithmetic-conversion type *)
+  (ity_eqb ta tb && ity_eqb (common_type ta tb) ta) || ity_eqb (common_type ta tb) (uac ta tb).
+Lemma common_fact_all : forall ta tb, common_fact ta tb = true.
+Proof. apply forall_ity2. vm_compute. reflexivity. Qed.
+
+Definition promoted_common_fact (ta tb : ity) : bool :=
+  negb (ity_eqb (promote ta) ta && ity_eqb (promote tb) tb) || ity_eqb (common_type ta tb) (uac ta tb).
+Lemma promoted_common_fact_all : forall ta tb, promoted_common_fact ta tb = true.
+Proof. apply forall_ity2. vm_compute. reflexivity. Qed.
+
+Definition promote_fact (t : ity) : bool :=
+  range_sub t (promote t) && ity_eqb (promote (promote t)) (promote t).
+Lemma promote_fact_all : forall t, promote_fact t = true.
+Proof. apply forall_ity. vm_compute. reflexivity. Qed.
+
+(* comparing with the int literal 0 happens in a signed type unless the operand is unsigned *)
+Definition zero_fact (t : ity) : bool := is_signed (uac t Int) || negb (is_signed t).
+Lemma zero_fact_all : forall t, zero_fact t = true.
+Proof. apply forall_ity. vm_compute. reflexivity. Qed.
+
+(* ------------------------------------------------------------------ *)
+(* 3. generic range lemmas *)
+
+Lemma tmin_le0 t : tmin t <= 0.
+Proof. unfold tmin. pose proof (half_pos t). destruct (is_signed t); lia. Qed.
+
+Lemma tmax_pos t : 0 < tmax t.
+Proof.
+  unfold tmax, modulus. pose proof (half_pos t) as Hh.
+  destruct (is_signed t); [|lia].
+  destruct t; vm_compute; reflexivity.
+Qed.
+
+Lemma tmax_in_range t : in_range t (tmax t).
+Proof. unfold in_range. pose proof (tmin_le0 t). pose proof (tmax_pos t). lia. Qed.
+
+Lemma unsigned_tmin t : is_signed t = false -> tmin t = 0.
+Proof. unfold tmin. intros ->. reflexivity. Qed.
+
+Lemma unsigned_tmax t : is_signed t = false -> tmax t = modulus t - 1.
+Proof. unfold tmax. intros ->. reflexivity. Qed.
+
+Lemma neg_signed t v : in_range t v -> v < 0 -> is_signed t = true.
+Proof.
+  unfold in_range, tmin. intros Hr Hv. destruct (is_signed t); [reflexivity|lia].
+Qed.
+
+Lemma nonneg_in_range t v : 0 <= v -> v <= tmax t -> in_range t v.
+Proof. unfold in_range. pose proof (tmin_le0 t). lia. Qed.
+
+Lemma conv_id t v : in_range t v -> conv t v = v.
+Proof.
+  unfold in_range, conv, tmin, tmax, modulus. pose proof (half_pos t) as Hh.
+  set (h := half t) in *. destruct (is_signed t); intros Hr.
+  - rewrite Z.mod_small by lia. lia.
+  - rewrite Z.mod_small by lia. reflexivity.
+Qed.
+
+Lemma in_rangeb_true t v : in_range t v -> in_rangeb t v = true.
+Proof. unfold in_range, in_rangeb. lia. Qed.
+
+Lemma range_sub_in a t v : range_sub a t = true -> in_range a v -> in_range t v.
+Proof. unfold range_sub, in_range. lia. Qed.
+
+Section UacFacts.
+  Variables ta tb : ity.
+  Let t := uac ta tb.
+
+  Lemma uac_parts :
+    (if is_signed t then range_sub ta t && range_sub tb t
+     else (tmax ta <=? tmax t) && (tmax tb <=? tmax t)) = true /\
+    uac t t = t /\
+    (is_signed ta = true -> is_signed tb = true -> is_signed t = true) /\
+    (promote ta = ta -> promote tb = tb ->
+     is_signed ta = false -> is_signed tb = false -> is_signed t = false).
+  Proof.
+    pose proof (uac_fact_all ta tb) as H. unfold uac_fact in H. fold t in H.
+    apply andb_prop in H. destruct H as [H H4].
+    apply andb_prop in H. destruct H as [H H3].
+    apply andb_prop in H. destruct H as [H1 H2].
+    split; [exact H1|]. split; [apply ity_eqb_eq; exact H2|]. split.
+    - intros Ha Hb. rewrite Ha, Hb in H3. cbn in H3. exact H3.
+    - intros Hpa Hpb Ha Hb. rewrite Hpa, Hpb, Ha, Hb in H4.
+      assert (Hr : forall x, ity_eqb x x = true) by (destruct x; reflexivity).
+      rewrite !Hr in H4. cbn in H4. destruct (is_signed t); [discriminate H4|reflexivity].
+  Qed.
+
+  (* a value keeps its value when converted to the type of the operation if it is
+     non-negative or the operation's type is signed *)
+  Lemma uac_in_range_l a : in_range ta a -> 0 <= a \/ is_signed t = true -> in_range t a.
+  Proof.
+    intros Hr Hc. destruct uac_parts as [H1 _]. destruct (is_signed t) eqn:Hs.
+    - apply andb_prop in H1. destruct H1 as [H1 _]. exact (range_sub_in _ _ _ H1 Hr).
+    - destruct Hc as [Hc|Hc]; [|discriminate Hc].
+      apply andb_prop in H1. destruct H1 as [H1 _]. unfold in_range in Hr.
+      apply nonneg_in_range; lia.
+  Qed.
+
+  Lemma uac_in_range_r b : in_range tb b -> 0 <= b \/ is_signed t = true -> in_range t b.
+  Proof.
+    intros Hr Hc. destruct uac_parts as [H1 _]. destruct (is_signed t) eqn:Hs.
+    - apply andb_prop in H1. destruct H1 as [_ H1]. exact (range_sub_in _ _ _ H1 Hr).
+    - destruct Hc as [Hc|Hc]; [|discriminate Hc].
+      apply andb_prop in H1. destruct H1 as [_ H1]. unfold in_range in Hr.
+      apply nonneg_in_range; lia.
+  Qed.
+
+  Lemma uac_tmax_l : tmax ta <= tmax t.
+  Proof.
+    destruct uac_parts as [H1 _]. destruct (is_signed t).
+    - unfold range_sub in H1. lia.
+    - lia.
+  Qed.
+
+  Lemma uac_tmax_r : tmax tb <= tmax t.
+  Proof.
+    destruct uac_parts as [H1 _]. destruct (is_signed t).
+    - unfold range_sub in H1. lia.
+    - lia.
+  Qed.
+
+  (* the condition under which comparisons and conversions in type t are value preserving *)
+  Definition safe_pair (a b : Z) : Prop := (0 <= a /\ 0 <= b) \/ is_signed t = true.
+
+  Lemma lt_spec a b : in_range ta a -> in_range tb b -> safe_pair a b -> lt ta a tb b = (a <? b).
+  Proof.
+    intros Ha Hb Hs. unfold lt. fold t.
+    rewrite (conv_id t a), (conv_id t b); [reflexivity| |].
+    - apply uac_in_range_r; [exact Hb|]. destruct Hs as [[_ H]|H]; [left|right]; assumption.
+    - apply uac_in_range_l; [exact Ha|]. destruct Hs as [[H _]|H]; [left|right]; assumption.
+  Qed.
+
+  Lemma le_spec a b : in_range ta a -> in_range tb b -> safe_pair a b -> le ta a tb b = (a <=? b).
+  Proof.
+    intros Ha Hb Hs. unfold le. fold t.
+    rewrite (conv_id t a), (conv_id t b); [reflexivity| |].
+    - apply uac_in_range_r; [exact Hb|]. destruct Hs as [[_ H]|H]; [left|right]; assumption.
+    - apply uac_in_range_l; [exact Ha|]. destruct Hs as [[H _]|H]; [left|right]; assumption.
+  Qed.
+
+  Lemma ge_spec a b : in_range ta a -> in_range tb b -> safe_pair a b -> ge ta a tb b = (b <=? a).
+  Proof.
+    intros Ha Hb Hs. unfold ge. fold t.
+    rewrite (conv_id t a), (conv_id t b); [reflexivity| |].
+    - apply uac_in_range_r; [exact Hb|]. destruct Hs as [[_ H]|H]; [left|right]; assumption.
+    - apply uac_in_range_l; [exact Ha|]. destruct Hs as [[H _]|H]; [left|right]; assumption.
+  Qed.
+
+  (* a + b of non-negative operands whose sum fits the operation type: exact, no UB *)
+  Lemma add_exact a b :
+    in_range ta a -> in_range tb b -> 0 <= a -> 0 <= b -> a + b <= tmax t ->
+    add ta a tb b = Ok (t, a + b).
+  Proof.
+    intros Ha Hb Ha0 Hb0 Hfit. unfold add. fold t.
+    rewrite (conv_id t a) by (apply uac_in_range_l; [exact Ha|left; exact Ha0]).
+    rewrite (conv_id t b) by (apply uac_in_range_r; [exact Hb|left; exact Hb0]).
+    unfold arith_result.
+    assert (Hr : in_range t (a + b)) by (apply nonneg_in_range; lia).
+    destruct (is_signed t).
+    - rewrite (in_rangeb_true _ _ Hr). reflexivity.
+    - rewrite (conv_id _ _ Hr). reflexivity.
+  Qed.
+
+  (* a + b of non-negative operands in an unsigned operation type: modulo 2^n, never UB *)
+  Lemma add_unsigned a b :
+    is_signed t = false -> in_range ta a -> in_range tb b -> 0 <= a -> 0 <= b ->
+    add ta a tb b = Ok (t, (a + b) mod modulus t).
+  Proof.
+    intros Hu Ha Hb Ha0 Hb0. unfold add. fold t.
+    rewrite (conv_id t a) by (apply uac_in_range_l; [exact Ha|left; exact Ha0]).
+    rewrite (conv_id t b) by (apply uac_in_range_r; [exact Hb|left; exact Hb0]).
+    unfold arith_result, conv. rewrite Hu. reflexivity.
+  Qed.
+
+  (* a - b with 0 <= b <= a: exact, no UB *)
+  Lemma sub_exact a b :
+    in_range ta a -> in_range tb b -> 0 <= b -> b <= a ->
+    sub ta a tb b = Ok (t, a - b).
+  Proof.
+    intros Ha Hb Hb0 Hba. unfold sub. fold t.
+    assert (Ha' : in_range t a) by (apply uac_in_range_l; [exact Ha|left; lia]).
+    rewrite (conv_id t a) by exact Ha'.
+    rewrite (conv_id t b) by (apply uac_in_range_r; [exact Hb|left; exact Hb0]).
+    unfold arith_result.
+    assert (Hr : in_range t (a - b)) by (unfold in_range in Ha'; apply nonneg_in_range; lia).
+    destruct (is_signed t).
+    - rewrite (in_rangeb_true _ _ Hr). reflexivity.
+    - rewrite (conv_id _ _ Hr). reflexivity.
+  Qed.
+End UacFacts.
+
+Lemma int_zero_in_range : in_range Int 0.
+Proof. unfold in_range. pose proof (tmin_le0 Int). pose proof (tmax_pos Int). lia. Qed.
+
+Lemma zero_safe ta a : in_range ta a -> safe_pair ta Int a 0.
+Proof.
+  intros Ha. unfold safe_pair.
+  pose proof (zero_fact_all ta) as H. unfold zero_fact in H.
+  destruct (is_signed (uac ta Int)); [right; reflexivity|].
+  cbn in H. destruct (is_signed ta) eqn:Hs; [discriminate H|].
+  left. unfold in_range in Ha. rewrite (unsigned_tmin _ Hs) in Ha. lia.
+Qed.
+
+(* `a >= 0` and `a < 0` (int literal) mean what they say for every operand type *)
+Lemma ge0_spec ta a : in_range ta a -> ge ta a Int 0 = (0 <=? a).
+Proof. intros Ha. apply ge_spec; [exact Ha|exact int_zero_in_range|apply zero_safe; exact Ha]. Qed.
+
+Lemma lt0_spec ta a : in_range ta a -> lt ta a Int 0 = (a <? 0).
+Proof. intros Ha. apply lt_spec; [exact Ha|exact int_zero_in_range|apply zero_safe; exact Ha]. Qed.
+
+(* ------------------------------------------------------------------ *)
+(* 4. Less *)
+
+(* in the last branch of Less both operands have the same sign; then static_cast<AB> keeps
+   their values and the comparison in AB is the mathematical one *)
+Lemma less_same_sign ta a tb b :
+  in_range ta a -> in_range tb b -> (0 <= a /\ 0 <= b) \/ (a < 0 /\ b < 0) ->
+  let AB := common_type ta tb in
+  lt AB (conv AB a) AB (conv AB b) = (a <? b).
+Proof.
+  intros Ha Hb Hsign AB.
+  assert (Hboth : is_signed ta = true /\ is_signed tb = true \/ (0 <= a /\ 0 <= b)).
+  { destruct Hsign as [H|[H1 H2]]; [right; exact H|left].
+    split; [exact (neg_signed _ _ Ha H1)|exact (neg_signed _ _ Hb H2)]. }
+  (* AB holds both values, and comparing in AB is safe *)
+  assert (HAB : in_range AB a /\ in_range AB b /\ safe_pair AB AB a b).
+  { pose proof (common_fact_all ta tb) as Hc. unfold common_fact in Hc. fold AB in Hc.
+    apply orb_prop in Hc. destruct Hc as [Hc|Hc].
+    - apply andb_prop in Hc. destruct Hc as [He Hc].
+      apply ity_eqb_eq in He. apply ity_eqb_eq in Hc. subst tb. rewrite Hc.
+      split; [exact Ha|]. split; [exact Hb|].
+      unfold safe_pair. destruct Hboth as [[Hs _]|Hnn]; [right|left; exact Hnn].
+      destruct (uac_parts ta ta) as (_ & _ & H3 & _). apply H3; exact Hs.
+    - apply ity_eqb_eq in Hc. rewrite Hc.
+      destruct (uac_parts ta tb) as (_ & Hidem & H3 & _).
+      assert (Hcond : (0 <= a /\ 0 <= b) \/ is_signed (uac ta tb) = true).
+      { destruct Hboth as [[Hs1 Hs2]|Hnn]; [right; apply H3; assumption|left; exact Hnn]. }
+      split; [|split].
+      + apply uac_in_range_l; [exact Ha|]. destruct Hcond as [[H _]|H]; [left|right]; assumption.
+      + apply uac_in_range_r; [exact Hb|]. destruct Hcond as [[_ H]|H]; [left|right]; assumption.
+      + unfold safe_pair. rewrite Hidem. exact Hcond. }
+  destruct HAB as (HaAB & HbAB & Hsafe).
+  rewrite (conv_id AB a HaAB), (conv_id AB b HbAB).
+  apply lt_spec; assumption.
+Qed.
+
+Theorem less_spec ta a tb b :
+  in_range ta a -> in_range tb b -> Less ta a tb b = (a <? b).
+Proof.
+  intros Ha Hb. unfold Less.
+  rewrite (ge0_spec ta a Ha), (lt0_spec tb b Hb), (lt0_spec ta a Ha), (ge0_spec tb b Hb).
+  destruct (0 <=? a) eqn:Ea; destruct (b <? 0) eqn:Eb; cbn [andb].
+  - lia.
+  - replace (a <? 0) with false by lia. cbn [andb].
+    apply less_same_sign; [exact Ha|exact Hb|left; lia].
+  - replace (a <? 0) with true by lia. replace (0 <=? b) with false by lia. cbn [andb].
+    apply less_same_sign; [exact Ha|exact Hb|right; lia].
+  - replace (a <? 0) with true by lia. replace (0 <=? b) with true by lia. cbn [andb]. lia.
+Qed.
+
+(* ------------------------------------------------------------------ *)
+(* 5. IncreaseSumInternal *)
+
+(* overload for !AllUnsigned: precondition established by IncreaseSum(): a is a promotion of
+   an S value (a <= max S <= max A) *)
+Theorem isi_signed_spec S A a B b :
+  in_range A a -> in_range B b -> a <= tmax S -> tmax S <= tmax A ->
+  isi_signed S A a B b =
+  Ok (if (0 <=? a) && (0 <=? b) && (a + b <=? tmax S) then Some (a + b) else None).
+Proof.
+  intros Ha Hb HaS HSA. unfold isi_signed.
+  rewrite (lt0_spec A a Ha), (lt0_spec B b Hb).
+  destruct (a <? 0) eqn:Ea; cbn [orb].
+  { replace (0 <=? a) with false by lia. reflexivity. }
+  destruct (b <? 0) eqn:Eb; cbn [orb].
+  { replace (0 <=? b) with false by lia. rewrite andb_false_r. reflexivity. }
+  replace (0 <=? a) with true by lia. replace (0 <=? b) with true by lia. cbn [andb].
+  rewrite (sub_exact S A (tmax S) a (tmax_in_range S) Ha) by lia.
+  assert (Hd : in_range (uac S A) (tmax S - a)).
+  { apply uac_in_range_l; [apply nonneg_in_range; lia|left; lia]. }
+  rewrite (less_spec _ _ _ _ Hd Hb).
+  destruct (tmax S - a <? b) eqn:Eo.
+  { replace (a + b <=? tmax S) with false by lia. reflexivity. }
+  replace (a + b <=? tmax S) with true by lia.
+  pose proof (uac_tmax_l A B) as HAB.
+  rewrite (add_exact A B a b Ha Hb) by lia.
+  rewrite conv_id by (apply nonneg_in_range; lia).
+  reflexivity.
+Qed.
+
+Lemma mod_wrap_once x M : 0 < M -> M <= x < 2 * M -> x mod M = x - M.
+Proof.
+  intros HM Hx. replace x with ((x - M) + 1 * M) at 1 by lia.
+  rewrite Z_mod_plus_full. apply Z.mod_small. lia.
+Qed.
+
+(* overload for AllUnsigned<A,B>: A, B unsigned and already promoted; max S <= max A *)
+Theorem isi_unsigned_spec S A a B b :
+  is_signed A = false -> is_signed B = false -> promote A = A -> promote B = B ->
+  in_range A a -> in_range B b -> tmax S <= tmax A ->
+  isi_unsigned S A a B b = Ok (if a + b <=? tmax S then Some (a + b) else None).
+Proof.
+  intros HuA HuB HpA HpB Ha Hb HSA. unfold isi_unsigned.
+  assert (HAB : common_type A B = uac A B).
+  { pose proof (promoted_common_fact_all A B) as H. unfold promoted_common_fact in H.
+    rewrite HpA, HpB in H.
+    assert (Hr : forall x, ity_eqb x x = true) by (destruct x; reflexivity).
+    rewrite !Hr in H. cbn in H. apply ity_eqb_eq. exact H. }
+  rewrite HAB. set (AB := uac A B).
+  destruct (uac_parts A B) as (_ & _ & _ & Hu). specialize (Hu HpA HpB HuA HuB). fold AB in Hu.
+  assert (Ha0 : 0 <= a) by (unfold in_range in Ha; rewrite (unsigned_tmin _ HuA) in Ha; lia).
+  assert (Hb0 : 0 <= b) by (unfold in_range in Hb; rewrite (unsigned_tmin _ HuB) in Hb; lia).
+  rewrite (add_unsigned A B a b Hu Ha Hb Ha0 Hb0). fold AB.
+  pose proof (uac_tmax_l A B) as HmA. pose proof (uac_tmax_r A B) as HmB. fold AB in HmA, HmB.
+  rewrite (unsigned_tmax _ Hu) in HmA, HmB.
+  pose proof (half_pos AB) as Hh.
+  set (M := modulus AB) in *.
+  assert (HM : 0 < M) by (unfold M, modulus; lia).
+  unfold in_range in Ha, Hb.
+  set (sum := (a + b) mod M).
+  assert (Hsum : 0 <= sum < M) by (apply Z.mod_pos_bound; exact HM).
+  assert (HsumR : in_range AB sum).
+  { apply nonneg_in_range; [lia|]. rewrite (unsigned_tmax _ Hu). fold M. lia. }
+  rewrite (conv_id AB sum HsumR).
+  rewrite (ge_spec AB A sum a HsumR) by (try (left; lia); unfold in_range; lia).
+  rewrite (le_spec AB S sum (tmax S) HsumR (tmax_in_range S))
+    by (left; pose proof (tmax_pos S); lia).
+  destruct (Z_lt_ge_dec (a + b) M) as [Hsmall|Hbig].
+  - assert (Es : sum = a + b) by (apply Z.mod_small; lia).
+    rewrite Es. replace (a <=? a + b) with true by lia. cbn [andb].
+    destruct (a + b <=? tmax S) eqn:Ef; [|reflexivity].
+    rewrite conv_id by (apply nonneg_in_range; lia). reflexivity.
+  - assert (Es : sum = a + b - M) by (apply mod_wrap_once; lia).
+    replace (a <=? sum) with false by lia. cbn [andb].
+    replace (a + b <=? tmax S) with false by lia. reflexivity.
+Qed.
+
+(* ------------------------------------------------------------------ *)
+(* 6. IncreaseSum, NaturalSum, SetToNaturalSumOrMax, NaturalCast *)
+
+Lemma promote_parts t : range_sub t (promote t) = true /\ promote (promote t) = promote t.
+Proof.
+  pose proof (promote_fact_all t) as H. unfold promote_fact in H.
+  apply andb_prop in H. destruct H as [H1 H2]. split; [exact H1|apply ity_eqb_eq; exact H2].
+Qed.
+
+Theorem increase_sum2_spec S s T t :
+  in_range S s -> in_range T t ->
+  increase_sum2 S s T t =
+  Ok (if (0 <=? s) && (0 <=? t) && (s + t <=? tmax S) then Some (s + t) else None).
+Proof.
+  intros Hs Ht. unfold increase_sum2.
+  destruct (promote_parts S) as [HrS HpS]. destruct (promote_parts T) as [HrT HpT].
+  pose proof (range_sub_in _ _ _ HrS Hs) as HsA. pose proof (range_sub_in _ _ _ HrT Ht) as HtB.
+  rewrite (conv_id _ _ HsA), (conv_id _ _ HtB).
+  assert (HSA : tmax S <= tmax (promote S)) by (unfold range_sub in HrS; lia).
+  destruct (all_unsigned (promote S) (promote T)) eqn:Eu.
+  - unfold all_unsigned in Eu. apply andb_prop in Eu. destruct Eu as [EuA EuB].
+    apply negb_true_iff in EuA. apply negb_true_iff in EuB.
+    rewrite (isi_unsigned_spec S _ s _ t EuA EuB HpS HpT HsA HtB HSA).
+    unfold in_range in HsA, HtB. rewrite (unsigned_tmin _ EuA) in HsA. rewrite (unsigned_tmin _ EuB) in HtB.
+    replace (0 <=? s) with true by lia. replace (0 <=? t) with true by lia. reflexivity.
+  - apply isi_signed_spec; [exact HsA|exact HtB|unfold in_range in Hs; lia|exact HSA].
+Qed.
+
+Lemma zsum_nonneg args : all_nonneg args = true -> 0 <= zsum args.
+Proof.
+  induction args as [|[T t] rest IH]; intros H; [cbn; lia|].
+  change (all_nonneg ((T, t) :: rest)) with ((0 <=? t) && all_nonneg rest) in H.
+  change (zsum ((T, t) :: rest)) with (t + zsum rest).
+  apply andb_prop in H. destruct H as [H1 H2]. specialize (IH H2). lia.
+Qed.
+
+Theorem increase_sum_spec S : forall args s,
+  in_range S s -> args_in_range args ->
+  increase_sum S s args =
+  Ok (if (0 <=? s) && all_nonneg args && (s + zsum args <=? tmax S)
+      then Some (s + zsum args) else None)
+  \/ (args = [] /\ increase_sum S s args = Ok (Some s)).
+Proof.
+  induction args as [|[T t] rest IH]; intros s Hs Hargs.
+  - right. split; reflexivity.
+  - left. inversion Hargs as [|p l Ht Hrest]; subst. cbn [fst snd] in Ht.
+    cbn [increase_sum]. rewrite (increase_sum2_spec S s T t Hs Ht).
+    cbn [all_nonneg forallb zsum fold_right snd].
+    fold (all_nonneg rest). fold (zsum rest).
+    destruct ((0 <=? s) && (0 <=? t) && (s + t <=? tmax S)) eqn:Ehead.
+    + apply andb_prop in Ehead. destruct Ehead as [Ehead E3].
+      apply andb_prop in Ehead. destruct Ehead as [E1 E2].
+      assert (Hs' : in_range S (s + t)) by (apply nonneg_in_range; lia).
+      destruct (IH (s + t) Hs' Hrest) as [IH'|[Hnil IH']].
+      * rewrite IH'. rewrite E1, E2. replace (0 <=? s + t) with true by lia. cbn [andb].
+        replace (s + (t + zsum rest)) with (s + t + zsum rest) by lia. reflexivity.
+      * subst rest. rewrite IH'. cbn. rewrite E1, E2. cbn [andb].
+        replace (s + (t + 0)) with (s + t) by lia. rewrite E3. reflexivity.
+    + destruct (0 <=? s) eqn:E1; cbn [andb]; [|reflexivity].
+      destruct (0 <=? t) eqn:E2; cbn [andb]; [|reflexivity].
+      cbn [andb] in Ehead.
+      destruct (all_nonneg rest) eqn:Enn; [|reflexivity].
+      pose proof (zsum_nonneg rest Enn).
+      replace (s + (t + zsum rest) <=? tmax S) with false by lia. reflexivity.
+Qed.
+
+(* NaturalSum<S>(args...) for any number (>= 1 in C++, >= 0 here) of arguments of any types *)
+Theorem natural_sum_spec S args :
+  args_in_range args -> natural_sum S args = Ok (exact_sum S args).
+Proof.
+  intros Hargs. unfold natural_sum, exact_sum.
+  assert (H0 : in_range S 0) by (apply nonneg_in_range; [lia|pose proof (tmax_pos S); lia]).
+  rewrite (conv_id S 0 H0).
+  destruct (increase_sum_spec S args 0 H0 Hargs) as [H|[Hnil H]].
+  - rewrite H. cbn [Z.leb Z.compare andb Z.add]. reflexivity.
+  - subst args. rewrite H. cbn. pose proof (tmax_pos S).
+    replace (0 <=? tmax S) with true by lia. reflexivity.
+Qed.
+
+Theorem natural_sum_some_iff S args v :
+  args_in_range args ->
+  (natural_sum S args = Ok (Some v) <->
+   all_nonneg args = true /\ v = zsum args /\ zsum args <= tmax S).
+Proof.
+  intros Hargs. rewrite (natural_sum_spec S args Hargs). unfold exact_sum.
+  destruct (all_nonneg args); cbn [andb].
+  - destruct (zsum args <=? tmax S) eqn:E.
+    + split.
+      * intros H. inversion H. split; [reflexivity|]. split; [reflexivity|lia].
+      * intros (_ & -> & _). reflexivity.
+    + split; [intros H; discriminate H|intros (_ & _ & H); lia].
+  - split; [intros H; discriminate H|intros (H & _); discriminate H].
+Qed.
+
+Theorem natural_sum_none_iff S args :
+  args_in_range args ->
+  (natural_sum S args = Ok None <-> all_nonneg args = false \/ tmax S < zsum args).
+Proof.
+  intros Hargs. rewrite (natural_sum_spec S args Hargs). unfold exact_sum.
+  destruct (all_nonneg args); cbn [andb].
+  - destruct (zsum args <=? tmax S) eqn:E.
+    + split; [intros H; discriminate H|intros [H|H]; [discriminate H|lia]].
+    + split; [intros _; right; lia|reflexivity].
+  - split; [intros _; left; reflexivity|reflexivity].
+Qed.
+
+Theorem natural_sum_result_in_range S args v :
+  args_in_range args -> natural_sum S args = Ok (Some v) -> in_range S v.
+Proof.
+  intros Hargs H. apply (natural_sum_some_iff S args v Hargs) in H.
+  destruct H as (Hnn & -> & Hfit). apply nonneg_in_range; [apply zsum_nonneg; exact Hnn|exact Hfit].
+Qed.
+
+Theorem natural_sum_no_ub S args : args_in_range args -> natural_sum S args <> UB.
+Proof. intros Hargs. rewrite (natural_sum_spec S args Hargs). discriminate. Qed.
+
+Theorem set_to_natural_sum_or_max_spec S args :
+  args_in_range args ->
+  set_to_natural_sum_or_max S args =
+  Ok (if all_nonneg args && (zsum args <=? tmax S) then zsum args else tmax S).
+Proof.
+  intros Hargs. unfold set_to_natural_sum_or_max.
+  rewrite (natural_sum_spec S args Hargs). unfold exact_sum.
+  destruct (all_nonneg args && (zsum args <=? tmax S)); reflexivity.
+Qed.
+
+Theorem natural_cast_spec R Src s :
+  in_range Src s ->
+  natural_cast R Src s = Ok (if (0 <=? s) && (s <=? tmax R) then Some s else None).
+Proof.
+  intros Hs. unfold natural_cast.
+  rewrite natural_sum_spec by (constructor; [exact Hs|constructor]).
+  unfold exact_sum. cbn [all_nonneg forallb zsum fold_right snd].
+  rewrite andb_true_r. replace (s + 0) with s by lia. reflexivity.
+Qed.
+
+(* IncreaseSum(S sum, T t, Args... args) as C++ can instantiate it: at least one addend *)
+Theorem increase_sum_nonempty_spec S s x rest :
+  in_range S s -> args_in_range (x :: rest) ->
+  increase_sum S s (x :: rest) =
+  Ok (if (0 <=? s) && all_nonneg (x :: rest) && (s + zsum (x :: rest) <=? tmax S)
+      then Some (s + zsum (x :: rest)) else None).
+Proof.
+  intros Hs Hargs. destruct (increase_sum_spec S (x :: rest) s Hs Hargs) as [H|[H _]];
+    [exact H|discriminate H].
+Qed.
